@@ -56,9 +56,9 @@ header leaves no room for a further latch or gate).  `OrderedLatch { next_state,
 
 Not translated (reasons in `tools/unit_aigerbinsections.py`): the `from_*` constructors, `new` (unit
 `aigernew_binary`), `header` (accessor), `parse` (whole-file driver), `impl ParseInputs` of binary.rs (`next_input`,
-`latches`: nothing in binary.rs constructs a `ParseInputs`, the struct is unreachable), `ParseSymbols::{next_symbol,
-comment}` (the `or_parse` chain over closures that capture the reader alias; `remaining_*_content`), the `Writer`
-— these stay tied by the correspondence runs.
+`latches`: nothing in binary.rs constructs a `ParseInputs`, the struct is unreachable)
+— these stay tied by the correspondence runs.  `ParseSymbols::{next_symbol, comment}` are translated by the unit
+`aigerbinsymbols` and tied in `Props/TieAigerSymbols.lean`.
 -/
 import Flussab.Proof.TieAigerBinSections
 
